@@ -17,6 +17,7 @@ import (
 	"time"
 
 	"github.com/piotrnar/gocoin/client/common"
+	"github.com/piotrnar/gocoin/client/mainlib"
 	"github.com/piotrnar/gocoin/client/txpool"
 	"github.com/piotrnar/gocoin/lib/btc"
 
@@ -883,8 +884,8 @@ func (PoolH) Run(t *testing.T, c *hx.Case) *hx.Outcome {
 		common.GocoinHomeDir = dir + "/"
 		common.Reset()
 		p.boot()
-		p.n.Ch.CB.BlockMinedCB = txpool.BlockMined
-		p.n.Ch.CB.BlockUndoneCB = txpool.BlockUndone
+		p.n.Ch.CB.BlockMinedCB = mainlib.BlockMinedCB // client/main.go: blockMined (txpool.BlockMined + fee statistics)
+		p.n.Ch.CB.BlockUndoneCB = mainlib.BlockUndoneCB
 		common.BlockChain = p.n.Ch
 		common.Last.Mutex.Lock()
 		common.Last.Block = p.n.Ch.LastBlock()
